@@ -15,7 +15,7 @@ ATTR_VALUES = ('', 'a', 'abc', 'b c', 'x-y', 'text', 'radio', 'checkbox', 'submi
                'de-DE', '5', 'Abc')
 OPS = (None, '=', '~=', '|=', '^=', '$=', '*=', '!=')
 LANGS = ('en', 'de', 'de-DE', '*-DE', 'de-*', '', '*', 'en-US', 'x', 'DE-ch-1996')
-NEEDLES = ('a', 'x y', '', 'abc', 'a"b', "it's", 'a\\b', 'é', ')', ',')
+NEEDLES = ('a', 'x y', '', 'abc', 'a"b', "it's", 'a\\b', 'é', ')', ',', 'say "hi"', "it's'", '"', "'", '\\', 'x\\')
 STATE = tuple(n for n in S.SIMPLE if n not in ('scope',))
 
 
